@@ -43,6 +43,9 @@ func VerifC20SPM(maxLen int, shape int) {
 	if shape == 1 {
 		prefix, suffix = "<0x", ">"
 	}
+	if shape == 2 { // two occurrences of the control token's literal around the symbolic part
+		prefix, suffix = vfSpecialLit, vfSpecialLit
+	}
 	vocab, special := vfSPMVocab()
 	spm := NewSentencePieceModel(vocab)
 	s := prefix + verifNondetString("text", maxLen) + suffix
@@ -58,6 +61,15 @@ func VerifC20SPM(maxLen int, shape int) {
 	}
 	if len(s) < 2*len(vfSpecialLit) {
 		verifAssert(strings.Contains(s, vfSpecialLit) == slices.Contains(ids, special), "special-literal-encodes-to-special-id")
+	}
+	if shape == 2 {
+		n := 0
+		for _, id := range ids {
+			if id == special {
+				n++
+			}
+		}
+		verifAssert(n == 2, "every-occurrence-of-the-special-literal-encodes-to-the-special-id")
 	}
 	if strings.Contains(s, vfSpecialLit) || strings.Contains(s, "</s>") {
 		verifReach("special-seen")
